@@ -319,6 +319,11 @@ def rterm(rng, name, dec, classes=None, formula_vars=("x",), wide=False) -> dict
         for x in xs:
             v = x * scale // 10
             t["p"] += [{"k": "num", "neg": v < 0, "hi": "", "ip": abs(v) // scale, "fp": abs(v) % scale}, rnum(rng, dec, 0.0, 1.0, special=0)]
+        if len(xs) >= 2 and rng.random() < 0.2:      # open-ended tables: the first / last abscissa infinite
+            if rng.random() < 0.6:
+                t["p"][0] = dict(NINF)
+            if rng.random() < 0.6:
+                t["p"][-2] = dict(PINF)
         t["h"] = rheight(rng, dec)
     else:
         t["p"] = [rnum(rng, dec) for _ in ATTRS[cls]]
@@ -394,4 +399,10 @@ def rengine(rng: random.Random, dec: int, k: int, wide: bool = False) -> dict:
         if any(v["terms"] for v in e["outputs"]) and any(v["terms"] for v in e["inputs"] + e["outputs"]):
             b["rules"] = [rrule(rng, e, dec) for _ in range(rng.choice([8, 10, 12]) if wide else rng.choice([0, 1, 2, 4]))]
         e["blocks"].append(b)
+    # formulas may name ANY variable of the engine - inputs, outputs, variables declared later in the text, the term's own variable
+    allnames = [v["name"] for v in e["inputs"] + e["outputs"]]
+    for v in e["inputs"] + e["outputs"]:
+        for t in v["terms"]:
+            if t["cls"] == "Function" and not t["fv"] and allnames and rng.random() < 0.6:
+                t["f"] = [(rng.choice(allnames) if tok in invars and tok != "x" else tok) for tok in t["f"]]
     return e
